@@ -1,6 +1,10 @@
 package checks
 
-import "verif/gen"
+import (
+	"fmt"
+
+	"verif/gen"
+)
 
 func init() {
 	Register(&Check{
@@ -11,6 +15,15 @@ func init() {
 				return err
 			}
 			// random subset programs with one out-of-subset construct injected at a random position
+			if sd := envOr("VERIF_RANDOM_SEED", ""); sd != "" {
+				// exploration aid (not used by the registered commands): another seed of the random corpora
+				var seed int64
+				fmt.Sscan(sd, &seed)
+				if err := tvRandom(ctx, gen.RandomLookalikes(seed, 500, 3)); err != nil {
+					return err
+				}
+				return tvRandom(ctx, gen.RandomLiberal(seed, 500, 3))
+			}
 			if ctx.TierN() == 0 {
 				if err := tvRandom(ctx, gen.RandomLookalikes(1, 150, 3)); err != nil {
 					return err
